@@ -14,7 +14,12 @@ hand model (Avoid/BlockingGen.v); the real EdgeInf::firstBlocker / Router::newBl
 spec_shapeBlocks (harness/c03_block.cpp, check_blocking); history families "wedged" (three mutually touching rectangles, activation order of the wedged one)
 and "pocket" (unroutable, then routable); scene family "zbend" (Z-bend connectors in a shared corridor, unifying nudging pre-step).  A route along a degenerate
 chord is a known finding only if the proved per-shape test does not block it (degenerate_chord) or, when it does, if the edge was last computed by the rotational
-sweep with the shape already active (sweep_border_chord, path-sensitive classifier avoid_lib.sweep_computed_edge_last)."""
+sweep with the shape already active (sweep_border_chord, path-sensitive classifier avoid_lib.sweep_computed_edge_last).
+Fourth round (DESIGN 9.20): history families with shapeBufferDistance 4 / 10 (rectangles; route_ok against the ROUTING polygons = rectangles grown by the buffer distance, tied to the
+harness's B lines; "bufzone" = only the buffer zone of an added / moved / grown rectangle lies across a current route; seeded change C06-8); dual-mode routers (harness mode 2) with
+routing-type switches on existing connectors (op Y = ConnRef::setRoutingType, family "typeswitch"; an orthogonal connector's route must also be axis-parallel; seeded change C03-8);
+scene family "sharedpin" (harness ops N = ShapeConnectionPin, Q = connector to ConnEnd(shape, class)): 2-4 orthogonal connectors share ONE non-exclusive off-centre pin as destination,
+obstacles between sources and target; route_ok with the pin position as the attachment point (seeded change C03-7)."""
 import os, json, hashlib
 from vlib import common as C
 from checks import avoid_lib as A
@@ -529,6 +534,10 @@ def run(tier):
         'contains family: endpoints may lie strictly inside a shape (integer points; orthogonal mode: rectangles only); a shape is exempt for a '
         'connector only while it strictly contains one of its endpoints in the scene of that moment (route_ok is evaluated on the current polygons '
         'after every processTransaction); no buffer distance in this family',
+        'buffered history families (buf4 / buf10): rectangles only; the obstacles are the routing polygons = the rectangles grown by shapeBufferDistance (harness line B compared exactly); the grown boxes stay '
+        'separated by >= 1 and endpoints stay outside them after every edit; typeswitch family: dual-mode router, rectangles, endpoints outside every box, segmentPenalty 10; sharedpin family: orthogonal, one '
+        'proportional pin (fraction 1/4, 3/4, k/8 along a side, inside offset 5 / 10, outward direction or ConnDirAll, setExclusive(false) or ConnDirAll default), sources not in line with the pin and outside every '
+        'box grown by 5; the attachment point demanded by route_ok is the pin position computed from the rectangle and the offsets',
         'hyperedge family: junction and terminals are generated in free space (>= 6 + buffer outside every rectangle), so the exemption-free segs_clear '
         'over all shapes is the oracle; a junction end may be at position() or recommendedPosition(); a route written dst -> src is accepted (C11 known '
         'finding hyperedge_route_reversed); scenes that die on the C11 known assertion makepath.cpp orthogonalDirectionsCount (F-h) are skipped and '
@@ -564,6 +573,15 @@ def run(tier):
                 continue
             k += 1
             cases.append(make_case('zbend', name, sc[0], sc[1], mode, pen, buf, nudge))
+    # shared non-exclusive pin scenes (seeded change C03-7, DESIGN 9.20): own stream
+    rp = C.SplitMix64(C.get_seed() ^ 0xC0307)
+    k = 0
+    while k < (80 if tier == 'quick' else 600):
+        g = A.gen_sharedpin_scene(rp)
+        if g is None:
+            continue
+        k += 1
+        cases.append({'stream': 'sharedpin', 'cfg': 'sharedpin-orth', 'polys': g[0], 'conns': g[1], 'mode': 1, 'pen': g[3], 'buf': 0, 'nudge': g[4], 'script': g[2]})
     B = 400
     for i in range(0, len(cases), B):
         check_cases(res, exe, drv, cases[i:i + B], stats, samples)
@@ -735,7 +753,8 @@ META = {
                 '(exemption evaluated on the current scene), and segs_clear (C03_segs_clear_exact: no segment through any shape, no exemption) on every connector of '
                 'hyperedge scenes (free junction, 3-5 orthogonal connectors, both improvement options, with/without nudging); correspondence of the real '
                 'EdgeInf::firstBlocker and Router::newBlockingShape with spec_shapeBlocks on (segment, polygon) inputs (touch cases + exhaustive 7x7 lattice sweep of three polygons); '
-                'directed families wedged / pocket / zbend (DESIGN 9.10) '
+                'directed families wedged / pocket / zbend (DESIGN 9.10); fourth round (DESIGN 9.20): buffered rectangle histories judged against the routing polygons (bufzone, noop, addmove, only), '
+                'dual-mode routers with routing-type switches (typeswitch), shared non-exclusive pin scenes (sharedpin) '
                 '(V: validation and search, not proof of the implementation).',
         'design_ref': 'DESIGN.md 5.3'},
     'level_note': 'partial + finding. Trusted: Coq kernel; cpp2v.py + clang AST; exact-rational model of binary64; extraction (ExtrOcamlBasic) and the '
@@ -753,6 +772,7 @@ META = {
                   'Known findings: degenerate_chord (F-b; classifier now also requires that the proved per-shape test does not block the chord, i.e. fewer than two end-point touches) and '
                   'sweep_border_chord (the rotational sweep accepts a chord whose two ends lie on the border of an already active third shape; classifier is path-sensitive: the edge was last '
                   'computed by the sweep after the shape became active, not tested by newBlockingShape / firstBlocker afterwards). The unifying nudging pre-step and the "no route -> retry" flag '
-                  'are seen only through route validity on the zbend / pocket families.',
+                  'are seen only through route validity on the zbend / pocket families. Fourth round: the buffer growth of rectangles (PolygonInterface::offsetPolygon), ConnRef::setRoutingType / updateEndPoint and '
+                  'Obstacle::possiblePinPoints are not modelled in Coq: they are seen only through route_ok on the bufzone / typeswitch / sharedpin families (the grown rectangle is tied to routingPolygon() by exact comparison).',
     'technique': 'Coq proof over cpp2v-regenerated Gallina + verified route checker run on the implementation\'s routes',
 }
